@@ -254,6 +254,8 @@ struct RW<'a> {
     trace: Vec<String>,
     /// orphans a listed finding was tolerated for
     tolerated: BTreeSet<Id>,
+    /// orphans that were parked while their transaction was committed on the main chain
+    parked_committed: BTreeSet<Id>,
 }
 
 fn poll_now<F: std::future::Future>(f: F) -> Option<F::Output> {
@@ -726,6 +728,16 @@ impl<'a> RW<'a> {
         }
     }
 
+    fn large_cycle_threshold(&self) -> u64 {
+        if self.rcfg.small_budget { 600 } else { ckb_app_config::TxPoolConfig::default().max_tx_verify_cycles }
+    }
+
+    /// did the operation try (or may it have retried) a transaction of `peer` whose declared cycles are wrong?
+    fn peer_may_have_been_banned(&self, peer: usize, p0: &Snap, info: &OpInfo) -> bool {
+        let wrong = |id: &Id, declared: u64| self.uni.get(id).map(|u| u.cycles != declared).unwrap_or(false);
+        p0.orphans.values().any(|x| x.peer == peer && wrong(&x.id, x.declared)) || info.tried.iter().any(|t| t.1.map(|r| r.1 == peer && wrong(&t.0, r.0)).unwrap_or(false))
+    }
+
     fn committed(&self, hash: &[u8; 32]) -> bool {
         self.w.tree.get(&self.w.tip).state.tx_index.contains_key(hash)
     }
@@ -783,8 +795,10 @@ impl<'a> RW<'a> {
         for (k, ids) in &p1.orphan_index {
             vensure!(!ids.is_empty(), "orphan-index:empty-set-kept", "by_out_point keeps an empty set for {}#{} {}", hex(&k.0[..4]), k.1, ctx(self));
             for id in ids {
+                // demanded: every input is indexed; accepted in addition: an out point the orphan
+                // refers to as cell dep (an index that also covers cell deps is a legitimate design)
                 vensure!(
-                    want.get(k).map(|w| w.contains(id)).unwrap_or(false),
+                    want.get(k).map(|w| w.contains(id)).unwrap_or(false) || p1.orphans.get(id).map(|o| o.deps.contains(k)).unwrap_or(false),
                     if p1.orphans.contains_key(id) { "orphan-index:stale-record-owner-orphan" } else { "orphan-index:stale-record-owner-gone" },
                     "by_out_point holds {}#{} -> {} but no orphan with that id spends it {}",
                     hex(&k.0[..4]),
@@ -836,6 +850,11 @@ impl<'a> RW<'a> {
                     miss = self.missing(&o.inputs, &o.deps, &p1);
                 }
                 self.parked.insert(*id, Parked { missing: miss.into_iter().map(|k| (k, None)).collect() });
+                if self.committed(&o.hash) {
+                    // a committed transaction relayed again: its inputs are spent, it is parked
+                    self.parked_committed.insert(*id);
+                    st.label("remote:orphan:parked-copy-of-a-committed-tx");
+                }
                 st.label("remote:orphan:parked");
             }
         }
@@ -878,6 +897,8 @@ impl<'a> RW<'a> {
                 "last-missing-parent-referred-to-as-cell-dep-only".to_string()
             } else if self.committed(&o.hash) {
                 "orphan-is-a-committed-tx".to_string()
+            } else if self.parked_committed.contains(&o.id) {
+                "parked-while-committed-then-detached-by-reorg".to_string()
             } else {
                 format!("parents-known-after-{kind}")
             };
@@ -941,6 +962,15 @@ impl<'a> RW<'a> {
                 st.label("remote:orphan:left:expired");
             } else if overflow_possible {
                 st.label("remote:orphan:left:evicted-at-the-limit");
+            } else if matches!(kind, "reorg" | "block") && self.parked_committed.contains(id) {
+                // the orphan copy of a committed transaction, purged when its block is detached
+                // (what fix-2 of this work package does; never seen on the tree without it)
+                st.label("remote:orphan:left:purged-with-its-detached-block");
+            } else if o.declared > self.large_cycle_threshold() && self.peer_may_have_been_banned(o.peer, p0, info) {
+                // process_orphan_tx moves a "large cycle" orphan to the verify queue instead of
+                // retrying it; ban_malformed (a wrong declared cycle count of the same peer met in
+                // the same cascade) drops every queued transaction of the banned peer
+                st.label("remote:orphan:left:requeued-then-dropped-with-its-banned-peer");
             } else {
                 // it must have been retried with every parent known and refused
                 let known_sometime = |k: &CellKey| live_keys.contains(k) || outs0.contains(k) || outs1.contains(k) || tried_outs.contains(&k.0) || p0.orphans.values().any(|x| x.hash == k.0);
@@ -1115,6 +1145,7 @@ fn run_rcase(case: &RCase, st: &mut Stats, strict: bool, known: &dyn Fn(&str) ->
         nontrivial: false,
         trace: vec![],
         tolerated: BTreeSet::new(),
+        parked_committed: BTreeSet::new(),
     };
     rw.w.snap = rw.w.fetch()?;
     rw.build_plan(&case.plan, st);
@@ -1245,7 +1276,7 @@ fn run_local_reference(case: &RCase) -> Result<Snap, Violation> {
         nontrivial: false,
         summary: vec![],
     };
-    let mut rw = RW { w, rcfg: &case.cfg, uni: BTreeMap::new(), plan_ids: vec![], delivered: BTreeSet::new(), remote_subs: BTreeMap::new(), parked: BTreeMap::new(), opi: 0, flood_salt: 0, suspended: false, nontrivial: false, trace: vec![], tolerated: BTreeSet::new() };
+    let mut rw = RW { w, rcfg: &case.cfg, uni: BTreeMap::new(), plan_ids: vec![], delivered: BTreeSet::new(), remote_subs: BTreeMap::new(), parked: BTreeMap::new(), opi: 0, flood_salt: 0, suspended: false, nontrivial: false, trace: vec![], tolerated: BTreeSet::new(), parked_committed: BTreeSet::new() };
     let mut scratch = Stats::default();
     rw.build_plan(&case.plan, &mut scratch);
     for id in rw.plan_ids.clone() {
